@@ -712,6 +712,17 @@ func (r *c08Run) flap(ch string) error {
 	if err != nil {
 		return err
 	}
+	bobSide, bobName := cA, "bob.BC"
+	if ch == "AB" {
+		bobSide, bobName = cB, "bob.AB"
+	}
+	if pkgs, err := bobSide.LoadFwdPkgs(); err == nil {
+		for _, p := range pkgs {
+			r.emit("note fwdpkg(flap) end=%s height=%d state=%d adds=%d fwd=%v ack=%v sf=%d sfack=%v",
+				bobName, p.Height, int(p.State), len(p.Adds), p.FwdFilter, p.AckFilter, len(p.SettleFails),
+				p.SettleFailFilter)
+		}
+	}
 	epoch := r.epoch
 	onFail := func(id lnwire.ChannelID, _ lnwire.ShortChannelID, e LinkFailureError) {
 		atomic.AddInt32(&r.linkFailed, 1)
@@ -1375,6 +1386,22 @@ func (r *c08Run) run() (status string) {
 			res = "none"
 		}
 		r.emit("res n=%d => %s", p.n, res)
+		if p.kind != c08KUnknown && p.launched {
+			st := "unknown"
+			if inv, err := r.recvRegistry(p).LookupInvoice(context.Background(), p.hash); err == nil {
+				switch inv.State {
+				case invoices.ContractOpen:
+					st = "open"
+				case invoices.ContractSettled:
+					st = "settled"
+				case invoices.ContractCanceled:
+					st = "canceled"
+				case invoices.ContractAccepted:
+					st = "accepted"
+				}
+			}
+			r.emit("inv n=%d state=%s", p.n, st)
+		}
 	}
 	r.snapshot("q")
 	r.mu.Lock()
@@ -1503,6 +1530,15 @@ func c08Script(seed int64, idx int) *c08Spec {
 		s.flapPred = []*c08Pred{{at: "db", t: "commitcirc", nth: 1}}
 		s.flapCh = []string{first}
 		s.flapWait = []time.Duration{0}
+	case 11:
+		// the OUTGOING link is stopped right after ReceiveRevocation made the
+		// downstream fail durable and marked the package processed (3rd SetFwdFilter Bob
+		// persists) and before the response was handed to the switch: only the
+		// replay of the package by the re-created link can recover it.
+		s.pays = []*c08Pay{mk(dir, c08KUnknown, amt)}
+		s.flapPred = []*c08Pred{{at: "db", t: "fwdfilter", nth: 3}}
+		s.flapCh = []string{second}
+		s.flapWait = []time.Duration{0}
 	default:
 		// a forwarding package whose FIRST add is already acked while a LATER
 		// add has only a half-open circuit at the crash: Z exhausts Bob's
@@ -1530,7 +1566,7 @@ func c08Script(seed int64, idx int) *c08Spec {
 	return s
 }
 
-const c08NumScripts = 22
+const c08NumScripts = 24
 
 func c08GenSpec(seed int64, idx int, tier string) *c08Spec {
 	if idx < c08NumScripts {
